@@ -339,7 +339,7 @@ def run(env):
         env.require_complete(rt, "mock-kem-" + direction)
         mrt = env.pmap(monitor, rt.sessions, workload="impl-sender" if direction == "impl" else "ref-sender")
         env.extra_cov["mock_kem_ops_%s" % direction] = mrt.counts["evaluations"]
-    blist = ["mix-noalloc-abort-s-native", "mix-std-abort-z", "cfg-fuzzing"]
+    blist = ["mix-noalloc-abort-s-native", "mix-std-abort-z", "cfg-fuzzing", "noprobe"]
     if not env.quick():
         blist += ["opt0", "opt1", "opts", "optz", "native"] + fw.pairwise_builds()
     for b in blist:
